@@ -4,6 +4,42 @@
 //! kill right after each store call, refusal of each store call, clean stop), then a second
 //! instance is started on the same store and its `on_start` observation is compared with the store.
 
+/// The store isolation leg of C13 (same source file): C05's chain ends in the store, and what was
+/// handed over comes back at restart only if the store keeps the items of a plane apart.
+#[path = "../../c13/src/wide.rs"]
+mod wide;
+
+mod exec {
+    use swimos_api::error::StoreError;
+    use swimos_api::persistence::ServerPersistence;
+    use swimos_server_app::verif_hooks::InMemoryPlanePersistence;
+
+    pub struct MemServer;
+
+    impl ServerPersistence for MemServer {
+        type PlaneStore = InMemoryPlanePersistence;
+        fn open_plane(&self, _name: &str) -> Result<Self::PlaneStore, StoreError> {
+            Ok(InMemoryPlanePersistence::default())
+        }
+    }
+
+    pub fn rocks_opts(_default_opts: bool) -> swimos_rocks_store::RocksOpts {
+        let mut o = swimos_rocks_store::default_db_opts();
+        o.0.set_max_file_opening_threads(1);
+        o
+    }
+}
+
+static DIR_SEQ: std::sync::atomic::AtomicU64 = std::sync::atomic::AtomicU64::new(0);
+
+pub fn fresh_dir(root: &std::path::Path, tag: &str) -> std::path::PathBuf {
+    let n = DIR_SEQ.fetch_add(1, std::sync::atomic::Ordering::Relaxed);
+    let d = root.join("target").join("tmp").join(format!("c05-{}-{}-{}", std::process::id(), tag, n));
+    let _ = std::fs::remove_dir_all(&d);
+    std::fs::create_dir_all(&d).unwrap_or_else(|e| vcommon::machinery_failure(&format!("cannot create {}: {}", d.display(), e)));
+    d
+}
+
 use asys::grid::{replay, run_grid, GridSpec};
 use asys::oracle::check_c05;
 use asys::scripts::*;
@@ -79,10 +115,17 @@ fn main() {
     let ctx = Ctx::from_env("C05");
     set_checker(check_c05);
     if let Some(r) = ctx.replay_request() {
+        if r["detail"]["kind"].as_str() == Some("wide") {
+            wide::replay(&ctx, &r["detail"], &ctx.root);
+            ctx.finish("fault_enumeration", "replay");
+        }
         replay(&ctx, r);
         ctx.finish("fault_enumeration", "replay");
     }
     let quick = ctx.quick();
+    if !vcommon::sched::is_worker() {
+        wide::run_leg_sized(&ctx, &ctx.root, "store-keeps-items-apart", if quick { 1_100 } else { 66_000 });
+    }
     let sc = scripts();
     let grid: Vec<(usize, usize, Mode)> = if quick { vec![(8, 2, Mode::Eager), (4096, 64, Mode::Burst), (17, 64, Mode::Burst), (17, 2, Mode::Eager)] } else { vec![(8, 2, Mode::Eager), (8, 64, Mode::SlowRead), (4096, 64, Mode::Burst), (48, 3, Mode::Eager), (17, 64, Mode::Burst), (17, 2, Mode::Eager), (17, 3, Mode::SlowRead)] };
 
